@@ -190,6 +190,19 @@ func (s *session) loadField(r *run, res, a string, val, addr, op, f int) {
 	s.emit(r, fmt.Sprintf("load %s %s %d %d %d %s", res, a, val, addr, op, arg))
 }
 
+func (s *session) cloneReach(r *run, res, a string, roots []int) {
+	s.regs[res] = s.u.CloneReachable(s.regs[a], roots)
+	parts := []string{}
+	for _, x := range roots {
+		parts = append(parts, fmt.Sprint(x))
+	}
+	arg := strings.Join(parts, ",")
+	if arg == "" {
+		arg = "-"
+	}
+	s.emit(r, fmt.Sprintf("clonereach %s %s %s", res, a, arg))
+}
+
 func (s *session) callUnknown(r *run, res, a string, args []int) {
 	g := s.regs[a].Clone()
 	s.u.CallUnknown(g, args)
@@ -387,6 +400,59 @@ func (s *session) battery(r *run, rnd interface{ Intn(int) int }, present func(i
 		s.le(r, wm, gm, fmt.Sprintf("MergeNodeStatus(%d,%d) monotone", x, v))
 		s.le(r, "g", gm, "MergeNodeStatus extensive")
 		r.rep.Count(fmt.Sprintf("mns:present=%v,status=%d", present(x), v))
+	}
+	// CloneReachable (the trim of Resummarize) on g and on w ≤ g from the same roots, from a subset of them,
+	// and twice: exact result, well-formed, shrinking, monotone in graph and roots, idempotent
+	for i := 0; i < 2; i++ {
+		var roots []int
+		var have []int
+		for x := 0; x < s.n; x++ {
+			if present(x) {
+				have = append(have, x)
+			}
+		}
+		for k := rnd.Intn(4); k > 0; k-- {
+			if len(have) > 0 && rnd.Intn(5) > 0 {
+				roots = append(roots, have[rnd.Intn(len(have))]) // mostly nodes of g; sometimes absent ones
+			} else {
+				roots = append(roots, rnd.Intn(s.n))
+			}
+		}
+		if i == 1 && len(roots) > 1 && rnd.Intn(2) == 0 {
+			roots = append(roots, roots[0]) // a root listed twice is pushed twice
+		}
+		gc, wc, gcc, gsub := fmt.Sprintf("gcr%d", i), fmt.Sprintf("wcr%d", i), fmt.Sprintf("gcrr%d", i), fmt.Sprintf("gcrs%d", i)
+		s.cloneReach(r, gc, "g", roots)
+		s.cloneReach(r, wc, "w", roots)
+		s.cloneReach(r, gcc, gc, roots)
+		sub := roots
+		if len(roots) > 0 {
+			sub = roots[:len(roots)-1]
+		}
+		s.cloneReach(r, gsub, "g", sub)
+		s.show(r, gc)
+		s.show(r, wc)
+		s.show(r, gsub)
+		s.chk(r, gc, "chk rep=1 closed=1 wf=1")
+		s.le(r, gc, "g", "CloneReachable shrinking")
+		s.le(r, wc, gc, fmt.Sprintf("CloneReachable(%v) monotone", roots))
+		s.le(r, gsub, gc, fmt.Sprintf("CloneReachable monotone in the roots (%v ⊆ %v)", sub, roots))
+		s.matches(r, gcc, gc, "CloneReachable idempotent")
+		kept := 0
+		for x := 0; x < s.n; x++ {
+			if present(x) {
+				kept++
+			}
+		}
+		now := 0
+		if eg, ok := egOf(s.u, s.regs[gc]); ok && eg != nil {
+			for x := range eg.Dom {
+				if eg.Dom[x] {
+					now++
+				}
+			}
+		}
+		r.rep.Count(fmt.Sprintf("cloneReachable:roots=%d,trimmed=%v,empty=%v", len(roots), now < kept, now == 0))
 	}
 }
 
